@@ -318,7 +318,7 @@ def main():
             "the sign kappa = +-1 of a chain relative to its shared coefficient is taken from the library here (its correctness is property C03)",
             "no lineshapes (C13 covers their attachment)",
         ],
-        outside=["reactions not listed", "spins > 3", "floating point"],
+        outside=["reactions not listed", "identical final-state particles with spin (e.g. f2 -> gamma gamma): the reference symmetrisation is untriaged there, seed C02_4 is missed", "spins > 3", "floating point"],
     )
 
 
